@@ -59,7 +59,7 @@ CHECKS = {
              "C07_derived_ops (<=, >, >= as composed), C07_strict_weak_order (< is the lexicographic order of nested values over "
              "the leading dimension recursively: irreflexive, asymmetric, transitive, incomparable operands have equal values, "
              "hence transitivity of incomparability), C07_trichotomy (non-empty zero-based operands of equal rank: exactly one of "
-             "a<b, a==b, b<a, and == iff values equal), C07_prefix_smaller; all for any ranks (rank 0 = a leaf), extents, layouts (the value "
+             "a<b, a==b, b<a, and == iff values equal), C07_prefix_smaller; for ANY element equality, no law assumed (Model/CompareBy.v: the element type's own ==, each operand reading through its own projection): C07_eq_any_element_equality, C07_eq_by_generalises_eq, C07_self_eq_iff_elements_reflexive (a view equals itself exactly when every element equals itself: no shortcut on the identity of the operands is sound), C07_self_eq_with_nan, C07_ne_by_negation -- tied by harness/c07_elemeq.cpp (double arrays with a NaN at every position, element_transformed views of one array through function pointers of one type; views sharing base pointer and extensions but not strides) against eq_flat_by evaluated by vm_compute inside Coq; all for any ranks (rank 0 = a leaf), extents, layouts (the value "
              "abstraction forgets strides and base). Tie: all operators on three views of equal rank 0..4 with independent layouts, on "
              "owning copies and mixed (owning, double elements, pointer-to-const views, array_cref, const arrays), against the extracted model, plus model-independent monitors (negation, symmetry, "
              "trichotomy, transitivity, ownership independence). Empty operands: only ==/!= consistency, as the property says. Dimensionality 0: C07_rank0_compare_is_value_compare (all six operators on every pairing of array / reference / read-only reference / a() / element, const or not, answer the same relation on the two values and touch nothing), C07_rank0_eq_iff, _ne_negation, _lt_is_element_lt, _derived_ops, _strict_order_*, _incomparability_transitive, _trichotomy.  Tie: 152 compile probes (20 needed operand pairings x 6 operators, size-like queries) + h_rank0 with a consistency monitor.",
@@ -230,7 +230,7 @@ CHECKS = {
              "assertion: probe + known finding); faulted lifecycle histories and allocator-trait configurations other than the default are not run in three configurations; Coq 8.16.1 kernel, Print "
              "Assumptions in the evidence; open known findings: null-base slice of an empty owning array; re-based diagonal (= KF-C19-diagonal-rebased); 16 of the 132 assertion sites are never evaluated by any input (cannot be instantiated, do not compile, _MSC_VER-only, need an execution policy, or never selected: list in notes/REPORT_C20.txt FOLLOW-UP 3 D); violating calls are run on the default configuration only"),
     "C04": dict(
-        text='Theorems C04_history_invariant (any fault-free history of construction from values / arrays / views / ranges / initializer lists / other element types, copy and move construction and assignment over any prior state, swap, reextent, clear, writes, destruction; any rank >= 1, extents, index bases, trait configuration: no illegal lifetime or storage transition, and afterwards every array is backed by its own live block of exactly num_elements constructed cells), C04_storage_disjoint, C04_layout_matches_block, C04_move_ctor_no_copy, C04_swap_no_copy, C04_self_{copy,move}_assign_noop, C04_copy_ctor_extents, C04_view_ctor_extents, C04_move_leaves_empty_valid, and the VALUE side: C04_value_semantics (after any fault-free history in its documented domain the abstraction of the machine state -- per live array its reported extensions and the flat values of its block; moved-from cells keep their value and never belong to a live array between operations -- equals run_values of the history, the 50-line interpreter over (extensions, values) pairs), C04_operation_refines (the commuting square of each of the 26 operations on any state with the ownership invariant), C04_copy_independent, C04_copy_independent_of_source, C04_assign_from_view_value (views given by the lifecycle model\'s own offsets record, computed by the driver with Model/View.v). Tie: extensions, elements, block classes, allocator ids after every step; disjointness and aliasing monitors; element kinds that separate the type traits. Dimensionality 0 (Properties_Rank0.v, Model/LifeRank0.v: 27 rank-0 entry points as programs over the same checked micro-steps): C04_rank0_history_invariant (any fault-free history of rank-0 construction / copy / move / assignment from arrays, elements, references and convertible arrays / both swaps / writes / destruction, any element traits), C04_rank0_history_invariant_under_faults, C04_rank0_one_constructed_cell, C04_rank0_storage_disjoint, C04_rank0_value_semantics, C04_rank0_operation_refines, C04_rank0_copy_independent(_of_source), C04_rank0_move_{ctor,assign}_transfers (value arrives, no element copied, source stays a valid one-element array: a rank-0 array is never empty), C04_rank0_swap_exchanges, C04_rank0_self_{copy,move}_assign_noop, C04_rank0_assign_{element,reference}_exact.  Tie: 100 compile probes of every rank-0 spelling C04 needs (g++ and clang++, assertions on and off) + h_rank0 vs the extracted machine over 5 element kinds.',
+        text='Theorems C04_history_invariant (any fault-free history of construction from values / arrays / views / ranges / initializer lists / other element types, copy and move construction and assignment over any prior state, swap, reextent, clear, writes, destruction; any rank >= 1, extents, index bases, trait configuration: no illegal lifetime or storage transition, and afterwards every array is backed by its own live block of exactly num_elements constructed cells), C04_storage_disjoint, C04_layout_matches_block, C04_move_ctor_no_copy, C04_swap_no_copy, C04_self_{copy,move}_assign_noop, C04_copy_ctor_extents, C04_view_ctor_extents, C04_move_leaves_empty_valid, and the VALUE side: C04_value_semantics (after any fault-free history in its documented domain the abstraction of the machine state -- per live array its reported extensions and the flat values of its block; moved-from cells keep their value and never belong to a live array between operations -- equals run_values of the history, the 50-line interpreter over (extensions, values) pairs), C04_operation_refines (the commuting square of each of the 26 operations on any state with the ownership invariant), C04_copy_independent, C04_copy_independent_of_source, C04_assign_from_view_value (views given by the lifecycle model\'s own offsets record, computed by the driver with Model/View.v), C04_view_sources_compose (the composition with C01: the record the driver builds for ANY view reachable from a zero-based root by the view-forming operations meets the domain of the lifecycle theorems -- offsets inside the block, announced count, rank and number of elements of the view, offset k = address of elements()[k], distinct positions distinct cells). Tie: extensions, elements, block classes, allocator ids after every step; disjointness and aliasing monitors; element kinds that separate the type traits. Dimensionality 0 (Properties_Rank0.v, Model/LifeRank0.v: 27 rank-0 entry points as programs over the same checked micro-steps): C04_rank0_history_invariant (any fault-free history of rank-0 construction / copy / move / assignment from arrays, elements, references and convertible arrays / both swaps / writes / destruction, any element traits), C04_rank0_history_invariant_under_faults, C04_rank0_one_constructed_cell, C04_rank0_storage_disjoint, C04_rank0_value_semantics, C04_rank0_operation_refines, C04_rank0_copy_independent(_of_source), C04_rank0_move_{ctor,assign}_transfers (value arrives, no element copied, source stays a valid one-element array: a rank-0 array is never empty), C04_rank0_swap_exchanges, C04_rank0_self_{copy,move}_assign_noop, C04_rank0_assign_{element,reference}_exact.  Tie: 100 compile probes of every rank-0 spelling C04 needs (g++ and clang++, assertions on and off) + h_rank0 vs the extracted machine over 5 element kinds.',
         design_ref="5/C04", technique='Coq proof (ownership invariant of an executable lifecycle machine, Hoare triples with an exceptional postcondition, induction over histories and loops) + extracted-model vs library differential on random histories with an instrumented element type and allocator',
         note="Coq 8.16.1 kernel; every property theorem 'Closed under the global context'; one model coq/Model/Life.v (26 entry points as programs over checked micro-steps; element type given by three traits: trivially default constructible, trivially destructible, trivially copyable) shared by C04/C06/C08/C09/C10; the refinement of the machine to the reference interpreter over element VALUES is proved (C04_value_semantics, one commuting square per operation) and additionally evaluated on every generated history; hypotheses: every extensions argument has D dimensions, value lists have the announced length; faults: single injection point per run; rank 0 through Model/LifeRank0.v; ExtrOcamlBasic extraction; g++ 12/libstdc++"),
     "C06": dict(
